@@ -97,6 +97,7 @@ static void op_ci_decint(FILE *out, const char *id, char **a, int n) { ci_dec_co
 #include "ops_file.h"
 #include "ops_write.h"
 #include "ops_io.h"
+#include "ops_threads.h"
 
 /* ------------------------------------------------------------------ dispatch */
 
@@ -121,6 +122,7 @@ static struct { const char *name; opfn fn; int forked; } OPS[] = {
     {"MATCH", op_match, 1},
     {"IOSEQ", op_ioseq, 1},
     {"IOFAULT", op_iofault, 1},
+    {"THREADS", op_threads, 1},
     {NULL, NULL, 0}
 };
 
